@@ -60,6 +60,11 @@ End R.
 #[global] Hint Rewrite @r_sc_compute_w : rfn.
 #[global] Hint Rewrite @r_sc_valid : rfn.
 #[global] Hint Rewrite @r_sc_decrypt : rfn.
+#[global] Hint Rewrite @r_sc_seal : rfn.
+#[global] Hint Rewrite @r_sc_verify_share : rfn.
+#[global] Hint Rewrite @r_sc_create_decryption_share : rfn.
+#[global] Hint Rewrite @r_sc_unseal : rfn.
+#[global] Hint Rewrite @r_sc_unseal_with_shares : rfn.
 Print Assumptions r_sc_compute_v.
 Print Assumptions r_sc_compute_w.
 Print Assumptions r_sc_seal.
